@@ -69,4 +69,201 @@ contract(f"{FM}:compute_branch_coverage",
          ensures=["0 <= result and result <= 1",
                   "(result == 1) == all_covered(trace, subject_properties, None, None, None)"])
 
+# -- the fitness / coverage function objects the search talks to: fitness, covered verdict and coverage of one chromosome are the
+#    metric functions above applied to one and the same merged trace of its execution results (nothing added, nothing dropped).
+#    Executing the chromosome and merging the results (C11, C12) enter as assumed functions RESULTS and MERGED.
+from pyvc.contracts import klass, ufun, value_type  # noqa: E402
+GC_ = "pynguin.ga.computations"
+value_type("Chromosome")
+klass("pynguin.testcase.execution:TestCaseExecutor", fields={"subject_properties": "SubjectProperties"})
+ufun("RESULTS", ["Chromosome"], "list[ExecutionResult]")
+ufun("RESULT1", ["Chromosome"], "ExecutionResult")
+ufun("MERGED", ["list[ExecutionResult]"], "ExecutionTrace")
+MT = "MERGED(RESULTS(individual))"
+MT1 = "MERGED([RESULT1(individual)])"
+_SUITE_CLASSES = ("BranchDistanceTestSuiteFitnessFunction", "LineTestSuiteFitnessFunction", "TestSuiteBranchCoverageFunction",
+                  "TestSuiteLineCoverageFunction")
+_CASE_CLASSES = ("BranchDistanceTestCaseFitnessFunction", "TestCaseBranchCoverageFunction", "TestCaseLineCoverageFunction")
+klass(f"{GC_}:TestSuiteChromosomeComputation", fields={"_executor": "TestCaseExecutor"}, bases=[])
+klass(f"{GC_}:TestCaseChromosomeComputation", fields={"_executor": "TestCaseExecutor"}, bases=[])
+for c_ in _SUITE_CLASSES + _CASE_CLASSES:
+    klass(f"{GC_}:{c_}", fields={"_excluded_code_objects": "set[int]", "_excluded_true_predicates": "set[int]",
+                                 "_excluded_false_predicates": "set[int]"},
+          bases=["TestSuiteChromosomeComputation" if c_ in _SUITE_CLASSES else "TestCaseChromosomeComputation"])
+# (lists are compared element-wise; that the merged trace of equal lists is the same trace is stated explicitly)
+contract(f"{GC_}:TestSuiteChromosomeComputation._run_test_suite_chromosome", mode="assume",
+         sig={"self": "TestSuiteChromosomeComputation", "individual": "Chromosome"}, returns="list[ExecutionResult]",
+         ensures=["result == RESULTS(individual)", "MERGED(result) is MERGED(RESULTS(individual))"])
+contract(f"{GC_}:TestCaseChromosomeComputation._run_test_case_chromosome", mode="assume",
+         sig={"self": "TestCaseChromosomeComputation", "individual": "Chromosome"}, returns="ExecutionResult",
+         ensures=["result is RESULT1(individual)", "MERGED([result]) is MERGED([RESULT1(individual)])"])
+contract(f"{FM}:analyze_results", mode="assume", sig={"results": "list[ExecutionResult]"}, returns="ExecutionTrace",
+         ensures=["result is MERGED(results)", "wf_trace(result)"])
+SP_ = "self._executor.subject_properties"
+EXC = "self._excluded_code_objects, self._excluded_true_predicates, self._excluded_false_predicates"
+SIGI = {"individual": "Chromosome"}
+contract(f"{GC_}:BranchDistanceTestSuiteFitnessFunction.compute_fitness", sig=SIGI, returns="float",
+         ensures=["result >= 0 and isfinite(result)", f"(result == 0) == all_covered({MT}, {SP_}, {EXC})"])
+contract(f"{GC_}:BranchDistanceTestSuiteFitnessFunction.compute_is_covered", sig=SIGI, returns="bool",
+         ensures=[f"result == all_covered({MT}, {SP_}, {EXC})"])
+contract(f"{GC_}:BranchDistanceTestCaseFitnessFunction.compute_fitness", sig=SIGI, returns="float",
+         ensures=["result >= 0 and isfinite(result)", f"(result == 0) == all_covered({MT1}, {SP_}, None, None, None)"])
+contract(f"{GC_}:BranchDistanceTestCaseFitnessFunction.compute_is_covered", sig=SIGI, returns="bool",
+         ensures=[f"result == all_covered({MT1}, {SP_}, None, None, None)"])
+contract(f"{GC_}:TestSuiteBranchCoverageFunction.compute_coverage", sig=SIGI, returns="float",
+         requires=[f"trace_in_registry({MT}, {SP_})"],
+         ensures=["0 <= result and result <= 1", f"(result == 1) == all_covered({MT}, {SP_}, None, None, None)"])
+contract(f"{GC_}:TestCaseBranchCoverageFunction.compute_coverage", sig=SIGI, returns="float",
+         requires=[f"trace_in_registry({MT1}, {SP_})"],
+         ensures=["0 <= result and result <= 1", f"(result == 1) == all_covered({MT1}, {SP_}, None, None, None)"])
+contract(f"{GC_}:TestSuiteLineCoverageFunction.compute_coverage", sig=SIGI, returns="float",
+         requires=[f"trace_in_registry({MT}, {SP_})"],
+         ensures=["0 <= result and result <= 1", f"(result == 1) == ({MT}.covered_line_ids == keys({SP_}.existing_lines))"])
+contract(f"{GC_}:LineTestSuiteFitnessFunction.compute_is_covered", sig=SIGI, returns="bool",
+         requires=[f"trace_in_registry({MT}, {SP_})"],
+         ensures=[f"result == ({MT}.covered_line_ids == keys({SP_}.existing_lines))"])
+
 from . import c10_goals  # noqa: E402,F401  (goal-level contracts)
+
+# ==== bounded stand-in / witness: the same clauses on the real function objects, a real executor and real executions ===========
+import itertools  # noqa: E402
+
+from pyvc.bounded import Part, guarded  # noqa: E402
+
+_C10_MODULE = "c10_subject"
+_C10_SOURCE = '''
+def check(x):
+    if x > 0:
+        return "positive"
+    return "non-positive"
+
+
+def spin(n):
+    while n != 0:
+        n -= 1
+    return n
+
+
+def boom(flag):
+    if flag:
+        raise ValueError(flag)
+    return 0
+'''
+# test cases: full statement lists; spin(-1) never terminates, boom(True) raises
+_C10_TESTS = {
+    "pos": [("int_0", "5"), ("var_0", "{m}.check(int_0)")],
+    "neg": [("int_0", "-5"), ("var_0", "{m}.check(int_0)")],
+    "spin3": [("int_0", "3"), ("var_0", "{m}.spin(int_0)")],
+    "spin0": [("int_0", "0"), ("var_0", "{m}.spin(int_0)")],
+    "forever": [("int_0", "-1"), ("var_0", "{m}.spin(int_0)")],
+    "raise": [("bool_0", "True"), ("var_0", "{m}.boom(bool_0)")],
+    "calm": [("bool_0", "False"), ("var_0", "{m}.boom(bool_0)")],
+}
+
+
+def _c10_problems(suite, ff, cf, lf, lcf):
+    """The clauses of C10 on one suite chromosome; returns [(clause, class, detail)]."""
+    import math
+    out = []
+    fit, cov_flag, cov = ff.compute_fitness(suite), ff.compute_is_covered(suite), cf.compute_coverage(suite)
+    lfit, lflag, lcov = lf.compute_fitness(suite), lf.compute_is_covered(suite), lcf.compute_coverage(suite)
+    d = {"branch_fitness": fit, "branch_is_covered": cov_flag, "branch_coverage": cov, "line_fitness": lfit, "line_is_covered": lflag,
+         "line_coverage": lcov}
+    if not (math.isfinite(fit) and fit >= 0 and math.isfinite(lfit) and lfit >= 0):
+        out.append(("fitness is finite and non-negative", "fitness-range", d))
+    if not (0 <= cov <= 1 and 0 <= lcov <= 1):
+        out.append(("coverage lies in [0, 1]", "coverage-range", d))
+    if cov_flag != (fit == 0) or lflag != (lfit == 0):
+        out.append(("a suite is reported covered exactly when its fitness is zero", "covered-vs-fitness", d))
+    if (fit == 0) != (cov == 1):
+        out.append(("a suite's branch fitness is zero exactly when its branch coverage is 1", "fitness-vs-coverage", d))
+    if lflag != (lcov == 1):
+        out.append(("a suite is reported line-covered exactly when its line coverage is 1", "line-covered-vs-coverage", d))
+    return out
+
+
+def _check_c10_objects(part: Part, tier, seed):
+    import importlib, logging, shutil, sys, tempfile  # noqa: E401
+    from pathlib import Path
+    import libcst as cst
+    import pynguin.configuration as config
+    import pynguin.ga.computations as ff
+    import pynguin.ga.testcasechromosome as tcc
+    import pynguin.ga.testsuitechromosome as tsc
+    import pynguin.testcase.testcase as tc
+    from pynguin.instrumentation.machinery import install_import_hook
+    from pynguin.instrumentation.tracer import SubjectProperties
+    from pynguin.testcase.execution import TestCaseExecutor
+    from pynguin.utils.naming import get_module_alias
+    logging.disable(logging.CRITICAL)
+    workdir = Path(tempfile.mkdtemp(prefix="c10_"))
+    (workdir / f"{_C10_MODULE}.py").write_text(_C10_SOURCE)
+    sys.path.insert(0, str(workdir))
+    saved = config.configuration.module_name
+    config.configuration.module_name = _C10_MODULE
+    sp = SubjectProperties()
+    hook = install_import_hook(_C10_MODULE, sp, coverage_metrics={config.CoverageMetric.BRANCH, config.CoverageMetric.LINE})
+    hook.__enter__()
+    try:
+        with sp.instrumentation_tracer:
+            sys.modules.pop(_C10_MODULE, None)
+            importlib.import_module(_C10_MODULE)
+        sp.instrumentation_tracer.store_import_trace()
+        executor = TestCaseExecutor(sp, maximum_test_execution_timeout=0.4, test_execution_time_per_statement=0.4)
+        m = get_module_alias(_C10_MODULE)
+
+        def chromosome(name):
+            t = tc.TestCase()
+            for var, rhs in _C10_TESTS[name]:
+                t.add_statement(tc.Statement(node=cst.parse_module(f"{var} = {rhs.format(m=m)}\n").body[0], bound_variable=var, bound_type=None))
+            return tcc.TestCaseChromosome(test_case=t)
+        # one shared chromosome per test case: each is executed once, its result is cached on the chromosome
+        pool = {n: chromosome(n) for n in _C10_TESTS}
+        functions = (ff.BranchDistanceTestSuiteFitnessFunction(executor), ff.TestSuiteBranchCoverageFunction(executor),
+                     ff.LineTestSuiteFitnessFunction(executor), ff.TestSuiteLineCoverageFunction(executor))
+        names = sorted(_C10_TESTS)
+        sizes = (0, 1, 2, 3, len(names)) if tier != "thorough" else range(len(names) + 1)
+        for r in sizes:
+            for combo in itertools.combinations(names, r):
+                part.case()
+                suite = tsc.TestSuiteChromosome()
+                for n in combo:
+                    suite.add_test_case_chromosome(pool[n])
+                for clause, cls, detail in _c10_problems(suite, *functions):
+                    part.violation(clause, cls + (":with-timeout" if "forever" in combo else ""), {"suite": list(combo), **detail},
+                                   target=f"{GC_}:BranchDistanceTestSuiteFitnessFunction.compute_fitness")
+    finally:
+        hook.__exit__(None, None, None)
+        sys.modules.pop(_C10_MODULE, None)
+        sys.path.remove(str(workdir))
+        shutil.rmtree(workdir, ignore_errors=True)
+        config.configuration.module_name = saved
+        logging.disable(logging.NOTSET)
+
+
+def bounded_objects(tier, seed):
+    p = Part("C10", "fitness-objects-on-real-executions",
+             [f"{GC_}:BranchDistanceTestSuiteFitnessFunction.compute_fitness", f"{GC_}:BranchDistanceTestSuiteFitnessFunction.compute_is_covered",
+              f"{GC_}:TestSuiteBranchCoverageFunction.compute_coverage", f"{GC_}:LineTestSuiteFitnessFunction.compute_fitness",
+              f"{GC_}:TestSuiteLineCoverageFunction.compute_coverage"],
+             scope="the real suite-level fitness and coverage function objects on a real instrumented executor (time-out 0.4 s): every "
+                   "suite of 0-3 and of all 7 (thorough: every subset) test cases over a 3-function module - covering either "
+                   "branch, a loop entered and skipped, a test case that never terminates (timed out), one that raises",
+             bound="7 test cases, subsets of size <= 3 and the full suite (thorough: all 128 subsets)")
+    return guarded(p, _check_c10_objects, tier, seed)
+
+
+BOUNDED = [bounded_objects]
+
+
+def _witness_objects():
+    p = Part("C10", "witness", [], scope="", bound="")
+    _check_c10_objects(p, "quick", 0)
+    v = p.result().get("violations", [])
+    return {"fails": bool(v), "scenario": "real suite-level fitness / coverage objects on real executions (see bounded part)",
+            "problems": [str(x)[:400] for x in v[:3]]}
+
+
+WITNESS = {"BranchDistanceTestSuiteFitnessFunction.compute_fitness/post": _witness_objects,
+           "BranchDistanceTestSuiteFitnessFunction.compute_is_covered/post": _witness_objects,
+           "TestSuiteBranchCoverageFunction.compute_coverage/post": _witness_objects}
